@@ -748,6 +748,14 @@ pub fn plan(property: &str, tier: &str) -> Option<CheckSpec> {
                     b.add("SCHED", pr.clone(), c, Some(1), &rules, false);
                 }
             }
+            // cancel parked with a full ring, the root finished by a second thread after the drain and
+            // after at least one further command of the cancelling thread (the 0-command variants are
+            // C04's: known finding K3)
+            for pr in overload_remote_finish_programs().into_iter().filter(|p| p.name.starts_with("C04-ring-remote-finish")) {
+                for c in [true, false] {
+                    b.add("SCHED", pr.clone(), c, Some(1), &rules, false);
+                }
+            }
             let lp = local_limit_programs();
             let n2 = lp.len();
             let mut lp_rules = rules.to_vec();
